@@ -21,16 +21,22 @@ VrfRows == [kind : {"vrf"}, pk : Keys, pm : VMsgs, vk : Keys, vm : VMsgs, tamper
 VrfFlipRows == [kind : {"vrf_flip"}, pk : Keys, pm : {"a", "empty"}, byte : FlipBytes, bit : FlipBits]
 PopRows == [kind : {"bls_pop", "dlog_ed25519"}, pk : Keys, pctx : Ctxs, vk : Keys, vctx : Ctxs, tamper : {"none", "challenge", "response"}]
 
+(* encodings: a VRF public key must be a canonical point that is not of small order (the eight torsion points are refused); the two scalars of an
+   ed25519 discrete-log proof must be canonical (below the group order L), so that a proof has one encoding *)
+KeyRows == [kind : {"vrf_key"}, cls : {"valid", "torsion_0", "torsion_1", "torsion_2", "torsion_3", "torsion_4", "torsion_5", "torsion_6", "torsion_7", "not_on_curve"}]
+ProofEncRows == [kind : {"dlog_ed25519_enc"}, cls : {"canonical", "challenge_plus_L", "response_plus_L", "challenge_all_ff"}]
+EncAccept(r) == r.cls \in {"valid", "canonical"}
+
 ProofTerm(r) == IF r.kind = "vrf" THEN <<r.pk, r.pm, r.tamper>> ELSE <<r.pk, r.pctx, r.tamper>>
 Wanted(r) == IF r.kind = "vrf" THEN <<r.vk, r.vm, "none">> ELSE <<r.vk, r.vctx, "none">>
-Accept(r) == IF r.kind = "vrf_flip" THEN FALSE ELSE ProofTerm(r) = Wanted(r)
+Accept(r) == IF r.kind = "vrf_flip" THEN FALSE ELSE IF r.kind \in {"vrf_key", "dlog_ed25519_enc"} THEN EncAccept(r) ELSE ProofTerm(r) = Wanted(r)
 (* VRF output: equal exactly for equal (key, message) *)
 SameOutput(r) == r.kind = "vrf" /\ r.pk = r.vk /\ r.pm = r.vm
 
 VARIABLE row
-VInit == row \in VrfRows \cup VrfFlipRows \cup PopRows
+VInit == row \in VrfRows \cup VrfFlipRows \cup PopRows \cup KeyRows \cup ProofEncRows
 VSpec == VInit /\ [][UNCHANGED row]_row
 (* untampered proofs made for the verifier's key and input are accepted: completeness *)
-Complete == (row.kind # "vrf_flip" /\ row.tamper = "none" /\ ProofTerm(row) = Wanted(row)) => Accept(row)
+Complete == (row.kind \notin {"vrf_flip", "vrf_key", "dlog_ed25519_enc"} /\ row.tamper = "none" /\ ProofTerm(row) = Wanted(row)) => Accept(row)
 VExport == PrintT(<<"REPLAY", ToJson([kind |-> row.kind, row |-> row, accept |-> Accept(row), same_output |-> SameOutput(row)])>>)
 =============================================================================
